@@ -71,25 +71,6 @@ pub fn c15_log10_domain() {
     reached();
 }
 
-//@ id=C15 tier=quick to=900 cfg=std exh=1 desc="ground exact points on the real code: ln(1) == 0, log2(1) == 0, log10(1) == 0, ln_1p(+-0) == 0"
-#[cfg_attr(kani, kani::proof)]
-pub fn c15_exact_points() {
-    let one = gtf(1.0, 0.0);
-    let a = one.ln();
-    assert!(a.hi() == 0.0 && a.lo() == 0.0);
-    if !crate::gen_cells::known("c15_log2_one") {
-        let b = one.log2();
-        assert!(b.hi() == 0.0 && b.lo() == 0.0);
-    }
-    let c = one.log10();
-    assert!(c.hi() == 0.0 && c.lo() == 0.0);
-    let d = gtf(0.0, 0.0).ln_1p();
-    assert!(d.hi() == 0.0 && d.lo() == 0.0);
-    let e = gtf(-0.0, 0.0).ln_1p();
-    assert!(e.hi() == 0.0 && e.lo() == 0.0);
-    reached();
-}
-
 //@ id=C15 tier=quick to=1800 cfg=std exh=1 stub=1 unwind=16 stubs="TwoFloat::exp, exp2, exp_m1 -> havoc (their totality on valid input is C14); DW operator impls -> havoc" desc="ln, ln_1p, log2 contain no panic site of their own: for ALL arguments they return provided exp/exp2/exp_m1 return (i.e. no panic provided the Newton iterates are valid - the iterates' validity is numerical analysis that is not encoded)"
 #[cfg_attr(all(kani, feature = "stubs"), kani::proof)]
 #[cfg_attr(all(kani, feature = "stubs"), kani::unwind(16))]
